@@ -41,6 +41,8 @@ pub struct World {
     pub observed: Vec<(String, Vec<u8>)>,
     /// this world is one caller of a `par` op whose parent world had already reported a violation
     pub pre_violated: bool,
+    /// placement of the buffers handed to the library (see place.rs): (seed, calls so far)
+    pub place: Option<(u64, u64)>,
     /// the world consumed real randomness (C14-M3): excluded from the run digest
     pub nondeterministic: bool,
 }
@@ -93,6 +95,7 @@ impl World {
             samples: vec![],
             observed: vec![],
             pre_violated: false,
+            place: None,
             nondeterministic: false,
         }
     }
@@ -108,6 +111,18 @@ impl World {
         f.cases.clear();
         f.samples.clear();
         f
+    }
+
+    /// Placement mode of the next buffer handed to the library (None: no policy in this world).
+    pub fn next_place(&mut self) -> Option<u64> {
+        let (seed, n) = self.place?;
+        self.place = Some((seed, n + 1));
+        let mut x = seed ^ n.wrapping_mul(0x9E37_79B9_7F4A_7C15);
+        x ^= x >> 29;
+        x = x.wrapping_mul(0xBF58_476D_1CE4_E5B9);
+        x ^= x >> 32;
+        self.bump(if x & 8 != 0 { "probe.place.flush-against-guard-page" } else { "probe.place.unaligned" });
+        Some(x & 15)
     }
 
     pub fn bump(&mut self, k: &str) {
@@ -215,6 +230,11 @@ impl World {
         let r = match name.as_str() {
             "set" => self.op_set(&op),
             "set.fill" => self.op_set_fill(&op),
+            "place.policy" => {
+                self.place = Some((gu(&op, "seed").unwrap_or(1), 0));
+                self.bump("history.buffer-placement-policy");
+                Ok(json!({}))
+            }
             "fault" => self.op_fault(&op),
             "copy" => self.op_copy(&op),
             "world.reset" => {
